@@ -69,6 +69,23 @@ def run(rep, facts, tier):
     every = bool(ins) and all(P.every_path_passes(None, (r, 'term'), via_pos=[(bb, 'term') for bb, _t in ins], from_entry=True) for r in nd.return_blocks())
     rep.check(every, 'R05.9', 'new_datafrag/always-inserted', 'insert_frags on every path', 'new_datafrag can return without recording the fragment (a path avoids insert_frags): '
               'fragments of a sample are discarded on a condition that does not depend on that sample, so it never completes although every fragment arrives', nd.where())
+    # R05.15 (after seed C05f): ... and every fragment recorded is followed by the completeness test, whichever fragment it was - the sample is complete when the LAST hole is
+    # filled, not when the last-numbered fragment arrives
+    rep.rule('R05.15', 'complete => released: in new_datafrag every path from insert_frags to a return evaluates is_complete() of that buffer (the test is not skipped on a condition '
+                       'about which fragment arrived), and from its true edge every path to a return has removed the buffer')
+    tests = [(bb, 'term') for bb, t in nd.calls() if call_matches(t, 'AssemblyBuffer::is_complete')]
+    oka = bool(ins) and bool(tests)
+    for ib, _t in ins:
+        for r in nd.return_blocks():
+            if P.can_reach((ib, 'term'), (r, 'term'), avoid_pos=tests):
+                oka = False
+    rep.check(oka, 'R05.15', 'new_datafrag/always-tested', 'insert_frags => is_complete() evaluated, on every path',
+              'new_datafrag can record a fragment and return without testing whether the sample is now complete: when the fragment that fills the last hole is not the one the '
+              'condition expects (e.g. not the highest-numbered one), every fragment is there and the sample is never delivered nor requested again', nd.where())
+    rmv = [(bb, 'term') for bb, t in nd.calls() if callee_res(t).endswith('::remove') and has_field(og.of_operand(t['args'][0], bb, 'term'), 'assembly_buffers')]
+    okr = bool(comp) and bool(rmv) and not any(P.can_reach((t_, 0), (r, 'term'), avoid_pos=rmv) for s_, t_ in comp for r in nd.return_blocks())
+    rep.check(okr, 'R05.15', 'new_datafrag/complete-removed', 'is_complete() => the buffer is removed before the return',
+              'a complete assembly buffer can stay in the assembler: the sample is not handed over and, counted as partially received, not requested again either', nd.where())
     okI = bool(ins)
     for bb, t in ins:
         buf = og.of_operand(t['args'][0], bb, 'term')
